@@ -18,6 +18,7 @@ import (
 	"errors"
 	"os"
 	"strings"
+	"sync"
 	"time"
 
 	"github.com/bwmarrin/snowflake"
@@ -110,9 +111,24 @@ func newTx(db *DB, writable bool) (tx *Tx, err error) {
 	return
 }
 
+var (
+	// txIDNodes holds one snowflake node per NodeNum for the whole process: a
+	// node created per transaction restarts its sequence, so transactions
+	// begun in the same millisecond would all get the same id.
+	txIDNodes   = make(map[int64]*snowflake.Node)
+	txIDNodesMu sync.Mutex
+)
+
 // getTxID returns the tx id.
 func (tx *Tx) getTxID() (id uint64, err error) {
-	node, err := snowflake.NewNode(tx.db.opt.NodeNum)
+	txIDNodesMu.Lock()
+	node, ok := txIDNodes[tx.db.opt.NodeNum]
+	if !ok {
+		if node, err = snowflake.NewNode(tx.db.opt.NodeNum); err == nil {
+			txIDNodes[tx.db.opt.NodeNum] = node
+		}
+	}
+	txIDNodesMu.Unlock()
 	if err != nil {
 		return 0, err
 	}
